@@ -2470,8 +2470,23 @@ class Trimesh(Geometry3D):
                 matrix,
             )[0]
 
+        # normals are only mapped by the matrix itself when it is a rotation
+        # with uniform scale (possibly mirrored): under shear or non-uniform
+        # scale they have to be recomputed from the transformed triangles
+        if has_rotation:
+            rotation = matrix[:3, :3]
+            scale_sq = np.abs(np.linalg.det(rotation)) ** (2.0 / 3.0)
+            keep_normals = bool(
+                scale_sq > 0.0
+                and util.allclose(
+                    np.dot(rotation, rotation.T) / scale_sq, _IDENTITY3, atol=1e-8
+                )
+            )
+        else:
+            keep_normals = True
+
         # preserve face normals if we have them stored
-        if has_rotation and "face_normals" in self._cache:
+        if has_rotation and keep_normals and "face_normals" in self._cache:
             # transform face normals by rotation component
             self._cache.cache["face_normals"] = util.unitize(
                 transformations.transform_points(
@@ -2480,7 +2495,7 @@ class Trimesh(Geometry3D):
             )
 
         # preserve vertex normals if we have them stored
-        if has_rotation and "vertex_normals" in self._cache:
+        if has_rotation and keep_normals and "vertex_normals" in self._cache:
             self._cache.cache["vertex_normals"] = util.unitize(
                 transformations.transform_points(
                     self.vertex_normals, matrix=matrix, translate=False
@@ -2518,6 +2533,8 @@ class Trimesh(Geometry3D):
             "faces_unique_edges",
             "euler_number",
         }
+        if not keep_normals:
+            exclude.difference_update({"face_normals", "vertex_normals"})
         if flipped:
             # reversing the columns of faces changes the order
             # of the per-face edges so these have to be rebuilt
